@@ -87,7 +87,7 @@ func jobs(tier string) []driver.Job {
 		}
 		out = append(out, mkJob(scen{d: d, root: root, conc: 2, api: "graph", cbErr: true}, cd, 1, []int{0}))
 	}
-	return out
+	return append(out, seamJobs(th)...)
 }
 
 func mkJob(s scen, D, F int, bases []int, shard ...int) driver.Job {
